@@ -219,9 +219,59 @@ func (g *lexGen) term(depth int) Term {
 	return Lit(g.rune1())
 }
 
+// ExpandedSize is the number of pattern nodes of the tokens and ignored tokens after every
+// regular definition has been expanded at every use site (what the generator has to work on).
+func (g *Grammar) ExpandedSize() int {
+	defs := g.RegDefs()
+	memo := map[string]int{}
+	var size func(p *Pattern, depth int) int
+	size = func(p *Pattern, depth int) int {
+		n := 0
+		for _, a := range p.Alts {
+			for _, t := range a.Terms {
+				n++
+				if t.Sub != nil {
+					n += size(t.Sub, depth)
+				}
+				if t.Kind == TRef && depth < 30 {
+					if v, ok := memo[t.Ref]; ok {
+						n += v
+					} else if d, ok := defs[t.Ref]; ok {
+						v := size(d, depth+1)
+						memo[t.Ref] = v
+						n += v
+					}
+				}
+			}
+		}
+		return n
+	}
+	total := 0
+	for _, d := range g.Lex {
+		if d.Kind != DReg {
+			total += size(d.Pat, 0)
+		}
+	}
+	return total
+}
+
+// MaxExpandedSize bounds the lexical parts the generators produce (C09 judges termination on
+// size-bounded inputs; expansion of nested regular definitions multiplies sizes).
+const MaxExpandedSize = 260
+
 // GenLexGrammar builds a random lexical part (plus, with StrLits > 0, a tiny conflict-free
-// syntax part that only serves to introduce string-literal tokens).
+// syntax part that only serves to introduce string-literal tokens). The expanded size of the
+// result is bounded by MaxExpandedSize.
 func GenLexGrammar(r *rand.Rand, o LexGenOpts) *Grammar {
+	for try := 0; ; try++ {
+		g := genLexGrammar(r, o)
+		if g.ExpandedSize() <= MaxExpandedSize || try > 50 {
+			return g
+		}
+	}
+}
+
+func genLexGrammar(r *rand.Rand, o LexGenOpts) *Grammar {
 	g := &lexGen{r: r, o: o, alpha: pickAlphabet(r, o.AsciiOnly), defs: map[string]*Pattern{}}
 	out := &Grammar{}
 	nreg := 0
